@@ -1,6 +1,6 @@
 #!/bin/sh
 # usage: seeded_run.sh <seeded id, e.g. C11-1> [check ids...] : run checks against a seeded change in a scratch worktree
-ID=$1; shift; P=${ID%%-*}; CHECKS="${@:-$P}"
+ID=$1; shift; P=$(/venv/bin/python -c "import json,sys; print(json.load(open('/verif/seeded/$ID/meta.json'))['property'])" 2>/dev/null); P=${P:-${ID%%-*}}; CHECKS="${@:-$P}"
 WT=/tmp/seedwt_$ID
 git -C /repo worktree add -q --detach $WT HEAD || exit 2
 git -C $WT apply /verif/seeded/$ID/patch.diff || exit 3
